@@ -6,7 +6,7 @@ A competing rule randomises, separately per group, over the group's tradeoff poi
 of `rawPoints flip xm ym rows`).  By `C04.sweep_point_sound` and `metric_affine` the expected (x, y) metric pair of
 such a rule is (`Mixture.x`, `Mixture.y`).  All theorems hold for every dataset, any number of groups, every
 constraint / objective / flip / grid size N ≥ 1.  The arg-max is the exact one (`np.around(.,15)` and IEEE rounding
-of the implementation are outside the model; the harness accepts arg-max ties within 1e-8).
+of the implementation are outside the model; the harness accepts arg-max ties within 1e-12).
 -/
 /-
 CLAUSE → THEOREM TABLE (review R1-B; property text in properties.jsonl, id C05)
